@@ -12,7 +12,6 @@ from tools import partition as P
 from tools import vlib
 
 
-FINDING_REF_LOOP = "order/reference-crosses-loop-boundary"
 
 
 def mutants(part):
@@ -62,7 +61,7 @@ def mutants(part):
 class C18(vlib.Spec):
     model_vo = ["theories/Partition/WF.vo", "theories/Partition/Full.vo", "theories/Gen/OpsTable.vo"]
     props_vo = "theories/Props/C18.vo"
-    theorems = ["C18_WellFormed_b_sound_partial", "C18_refuted_reference_into_loop"]
+    theorems = ["C18_WellFormed_b_sound_partial", "C18_checker_rejects_misordered_reference"]
     crate, group, binary = "h_partition", "dfir", "h_partition"
     imports = ("From Coq Require Import List String NArith.\n"
                "From HV Require Import Partition.Base Partition.Model Partition.WF Partition.Full Gen.OpsTable.\n"
@@ -101,41 +100,6 @@ class C18(vlib.Spec):
 
     def shrink(self, case):
         return P.shrink_program(case)
-
-    def finding_key(self, case, res):
-        """known class: a handoff reference that crosses a loop boundary gets its subgraph order broken by
-        make_loops_contiguous.  Only when W6 (reference order) is the ONLY failing clause and every
-        mis-ordered reference crosses a loop boundary."""
-        v = self.verdicts.get(vlib.case_hash(case))
-        if v is None or (v >> 2) != 32:
-            return None
-        if not (isinstance(res, dict) and "part" in res and "ok" in res["part"]):
-            return None
-        g = res["part"]["ok"]
-        byid = {n["id"]: n for n in g["nodes"]}
-        pos = {s: i for i, s in enumerate(g["toposort"])}
-        sgpos = lambda x: pos.get(byid[x]["sg"]) if byid[x]["sg"] is not None else None
-        bad, cross_only = 0, True
-        for n in g["nodes"]:
-            for r in n["refs"]:
-                t = byid.get(r["t"])
-                if t is None:
-                    return None
-                viol = any(not (sgpos(a) is not None and sgpos(a) < sgpos(n["id"])) for _, a in t["preds"]) or \
-                    any(sgpos(c) is not None and sgpos(c) < sgpos(n["id"]) for _, c in t["succs"])
-                if viol:
-                    bad += 1
-                    if t["loop"] == n["loop"]:
-                        cross_only = False
-        # access-group order between borrowers in different loop contexts is the same class
-        refs = [(r["t"], -1 if r["g"] is None else r["g"], n["id"]) for n in g["nodes"] for r in n["refs"]]
-        for (t1, g1, a) in refs:
-            for (t2, g2, b) in refs:
-                if t1 == t2 and g1 < g2 and not (sgpos(a) < sgpos(b)):
-                    bad += 1
-                    if byid[a]["loop"] == byid[b]["loop"] == byid[t1]["loop"]:
-                        cross_only = False
-        return FINDING_REF_LOOP if bad and cross_only else None
 
     def nontrivial(self, case, res):
         if not (isinstance(res, dict) and "part" in res and "ok" in res["part"]):
